@@ -411,5 +411,8 @@ def meta(ctx: Ctx) -> None:
     # multiple outputs: names, target arrays and Arrays are zipped in construction order
     gb = repo.get(f"{A.OPS}._general_blockwise")
     zs = [n for n in gb.own_nodes() if isinstance(n, ast.Call) and isinstance(n.func, ast.Name) and n.func.id == "zip" and "target_array" in unparse(n)]
-    ok = bool(zs) and all(len(z.args) == 2 and isinstance(z.args[0], ast.Name) and z.args[0].id == "name" for z in zs)
+    # first zip operand = the variable that names the plan node (first argument of Plan._new)
+    news = repo.calls_to(gb, A.PLAN_NEW)
+    nvar = news[0].args[0].id if news and news[0].args and isinstance(news[0].args[0], ast.Name) else None
+    ok = bool(zs) and nvar is not None and all(len(z.args) == 2 and isinstance(z.args[0], ast.Name) and z.args[0].id == nvar for z in zs)
     ctx.ob(gb, zs[0] if zs else gb.node, ok, "for several outputs, result Arrays pair names with target arrays positionally", sel="meta:multi-zip")
